@@ -94,6 +94,10 @@ func (a *abstraction) walk(n *html.Node, d int) {
 		return
 	}
 	cls, _ := attr(n, "class")
+	if comp, _ := attr(n, "data-component"); cls == "sharing" || cls == "socialArea" || comp == "share" {
+		a.add("SHR", d)
+		return
+	}
 	kids := func(k string) {
 		i := a.add(k, d)
 		_ = i
